@@ -43,6 +43,9 @@ def answers() -> List[Dict[str, Any]]:
         out.append({"kind": "error", "code": c, "phrase": False})
     out.append({"kind": "error", "code": -32602, "phrase": True})
     out.append({"kind": "error", "code": -32603, "phrase": True})
+    # a refusal that ALSO serialises a result body (only deliverable as an object, the parser refuses it): still a refusal
+    out.append({"kind": "error", "code": -32602, "phrase": True, "with_result": True})
+    out.append({"kind": "error", "code": -32000, "phrase": False, "with_result": True})
     out.append({"kind": "silence"})
     return out
 
@@ -95,6 +98,9 @@ def build_answer(a: Dict[str, Any], rid: Any, sup: List[str] = None) -> Any:
             return {**j, "result": {}}
     if k == "error":
         msg = "Unsupported protocol version" if a["phrase"] else "nope"
+        if a.get("with_result"):
+            return {**j, "error": {"code": a["code"], "message": msg},
+                    "result": {"protocolVersion": (sup or REAL)[0], **CAPS}}
         return {**j, "error": {"code": a["code"], "message": msg}}
     return None
 
@@ -138,6 +144,10 @@ def run_one(ctl: explorer.Ctl, cfg: Dict[str, Any]) -> Dict[str, Any]:
 
     def deliver(wire):
         st["t_answer"] = loop.time()
+        if "error" in wire and "result" in wire:
+            from chuk_mcp.protocol.messages.json_rpc_message import JSONRPCResponse
+            st["send_r"].send_nowait(JSONRPCResponse(id=wire["id"], result=wire["result"], error=wire["error"]))
+            return
         st["send_r"].send_nowait(parse_message(wire))
 
     def idle(lp):
@@ -793,6 +803,132 @@ def run_entry_points(ctl: explorer.Ctl, cfg: Dict[str, Any]) -> Dict[str, Any]:
     return {"outcome": okind, "violations": viol}
 
 
+RUN_LATE = "vf.checks.c03:run_late_answer"
+
+
+def run_late_answer(ctl: explorer.Ctl, cfg: Dict[str, Any]) -> Dict[str, Any]:
+    """Handshake 1 is abandoned (times out); the server's answer to it arrives afterwards; handshake 2 on the SAME
+    streams must be decided by the answer to ITS request only."""
+    from chuk_mcp.protocol.messages.initialize.send_messages import (send_initialize,
+                                                                     send_initialize_with_client_tracking)
+    from chuk_mcp.protocol.messages.json_rpc_message import parse_message
+    from chuk_mcp.protocol.types.errors import NonRetryableError, RetryableError, VersionMismatchError
+    from chuk_mcp.transports.stdio.stdio_client import StdioClient
+
+    loop = new_loop(horizon=30)
+    writes: List[tuple] = []
+    st: Dict[str, Any] = {"phase": 1, "answered2": False}
+    client = StdioClient(seams.stdio_params()) if cfg["tracked"] else None
+    viol: List[dict] = []
+
+    def answer_to(req, v):
+        return parse_message({"jsonrpc": "2.0", "id": getattr(req, "id", None), "result": {"protocolVersion": v, **CAPS}})
+
+    def idle(lp):
+        inits = [m for _, m in writes if getattr(m, "method", None) == "initialize"]
+        if st["phase"] == 2 and len(inits) >= 2 and not st["answered2"]:
+            st["answered2"] = True
+            req2 = inits[1]
+            proposed2 = (getattr(req2, "params", None) or {}).get("protocolVersion")
+            v2 = proposed2 if cfg["v2"] == "echo" else cfg["v2"]
+            st["v2"] = v2
+
+            def deliver2():
+                st["t_answer2"] = lp.time()
+                st["send_r"].send_nowait(answer_to(req2, v2))
+            if cfg["delay2"]:
+                lp.env_call_at(lp.time() + cfg["delay2"], 0, deliver2)
+            else:
+                lp.call_soon(deliver2)
+
+    async def one(sup, pref, timeout):
+        kw = {"timeout": timeout, "supported_versions": list(sup), "preferred_version": pref}
+        try:
+            if client is not None:
+                r = await send_initialize_with_client_tracking(st["recv_r"], st["w"], client=client, **kw)
+            else:
+                r = await send_initialize(st["recv_r"], st["w"], **kw)
+            return ("ok", getattr(r, "protocolVersion", None))
+        except VersionMismatchError:
+            return ("version-mismatch", None)
+        except TimeoutError:
+            return ("timeout", None)
+        except (RetryableError, NonRetryableError) as e:
+            return ("rpc-error", getattr(e, "code", None))
+        except BaseException as e:  # noqa: BLE001
+            return ("exception", type(e).__name__)
+
+    async def main():
+        send_w, recv_w = anyio.create_memory_object_stream(math.inf)
+        send_r, recv_r = anyio.create_memory_object_stream(math.inf)
+        st["send_r"], st["recv_r"] = send_r, recv_r
+        st["w"] = RecordingSend(send_w, writes, loop)
+        r1 = await one(cfg["list1"], None, 0.3)
+        # the abandoned handshake's answer arrives now (0, 1 or 2 copies)
+        inits = [m for _, m in writes if getattr(m, "method", None) == "initialize"]
+        for _ in range(cfg["late_copies"]):
+            send_r.send_nowait(answer_to(inits[0], cfg["v1"]))
+        st["n_writes_before_2"] = len(writes)
+        st["phase"] = 2
+        r2 = await one(cfg["list2"], cfg["pref2"], 1.0)
+        return r1, r2
+
+    loop.idle_hook = idle
+    status, val = loop.run_main(main())
+    errors = loop.collect_errors()
+    loop.abandon()
+    if status != "ok":
+        return {"outcome": status, "violations": [{"sig": {"class": "did-not-finish", "part": "late-answer"}, "msg": f"cfg={cfg}: {status} {core.clean_repr(val)}"}]}
+    (k1, v1), (k2, v2got) = val
+
+    def bad(cls, msg):
+        viol.append({"sig": {"class": cls, "part": "late-answer"}, "msg": f"cfg={cfg}: {msg} [first: {k1}; second: {k2} {v2got!r}]"})
+
+    if k1 != "timeout":
+        bad("first-handshake-not-abandoned", "the silent first handshake must time out")
+    sup2 = cfg["list2"]
+    want2 = cfg["pref2"] if (cfg["pref2"] is not None and cfg["pref2"] in sup2) else sup2[0]
+    w2 = [(t, m.model_dump(exclude_none=True)) for t, m in writes[st["n_writes_before_2"]:]]
+    inits2 = [w for _, w in w2 if w.get("method") == "initialize"]
+    notes2 = [(t, w) for t, w in w2 if w.get("method") == "notifications/initialized"]
+    if len(inits2) != 1 or (inits2[0].get("params") or {}).get("protocolVersion") != want2:
+        bad("wrong-proposal", f"second handshake wrote {inits2}")
+    v2 = st.get("v2")
+    if v2 in sup2:
+        if k2 != "ok" or v2got != v2:
+            bad("decided-by-another-requests-answer", f"the server answered the second request with {v2!r}")
+        elif len(notes2) != 1:
+            bad("initialized-count", f"{len(notes2)} initialized notifications")
+        elif st.get("t_answer2") is None or notes2[0][0] < st["t_answer2"] - 1e-12:
+            bad("initialized-before-the-answer", f"initialized written at {notes2[0][0]}, the answer to this handshake arrived at {st.get('t_answer2')}")
+        if client is not None and k2 == "ok":
+            info = client.get_batching_info()
+            if info.get("protocol_version") != v2 or bool(info.get("batching_enabled")) != (v2 < "2025-06-18"):
+                bad("tracked-client-mode", f"batching info {info}, the server settled on {v2!r}")
+    else:
+        if k2 == "ok":
+            bad("accepted-unoffered-version", f"the server answered the second request with {v2!r}, not in {sup2}")
+        if notes2:
+            bad("initialized-sent-on-failure", f"{len(notes2)} initialized notifications")
+    if errors:
+        bad("loop-error", f"{errors[:2]}")
+    return {"outcome": f"{k1}/{k2}", "violations": viol}
+
+
+def late_configs():
+    out = []
+    for v1 in ("2025-06-18", "2025-03-26", "1999-12-31"):
+        for list2, pref2 in ((["2025-06-18", "2025-03-26"], "2025-03-26"), (["2025-03-26", "2025-06-18"], None),
+                             (["2024-11-05"], None), (["2025-06-18", "2025-03-26", "2024-11-05"], "2024-11-05")):
+            for v2 in ("echo", "2025-06-18", "2025-03-26", "1999-12-31"):
+                for copies in (1, 2):
+                    for delay2 in (0, 0.2):
+                        for tr in (False, True):
+                            out.append({"list1": ["2025-06-18", "2025-03-26"], "v1": v1, "list2": list2, "pref2": pref2,
+                                        "v2": v2, "late_copies": copies, "delay2": delay2, "tracked": tr})
+    return out
+
+
 def run(tier: str, only=None) -> core.Result:
     res = core.Result("C03", "model_checking")
     ls = lists(2 if tier == "quick" else 3)
@@ -849,6 +985,9 @@ def run(tier: str, only=None) -> core.Result:
           for a in ("echo", "2025-06-18", "2024-11-05", "1999-12-31")]
     out = explorer.explore(RUN_EP, ep, fidelity=True)
     sched.absorb(res, "stdio-entry-points-taking-the-callers-list", RUN_EP, out, ep)
+    lc = late_configs()
+    out = explorer.explore(RUN_LATE, lc, fidelity=True)
+    sched.absorb(res, "second-handshake-after-an-abandoned-one-whose-answer-arrives-late", RUN_LATE, out, lc)
     dc, gnames = defaults_configs()
     if len(gnames) < 1:
         res.harness_errors.append("[defaults] no public getter returning the supported-version list was discovered")
